@@ -1,4 +1,4 @@
 SPECIFICATION Spec
-CONSTANTS Lenient = TRUE Alphabet = {0, 1, 2, 3} MaxLen = 5
+CONSTANTS ArrBE = FALSE Lenient = TRUE Alphabet = {0, 1, 2, 3} MaxLen = 5
 CONSTANT Formats <- MCFormats
 INVARIANT NoSilentTruncation
